@@ -206,6 +206,9 @@ def hare_spec(c, io, mo):
     return spec(c, ok([[], v[1][2], v[1][3]]), mo)
 
 
+_DROPPED = [0]      # recordings that did not replay on the implementation that produced them
+
+
 def gen_hare_oracle(rng, count):
     for c in c03_hare.gen(rng, count):
         c['form'] = 'selector' if all(v == 1 for _, v in c['caps']) else 'distributor'
@@ -218,6 +221,15 @@ def gen_hare_oracle(rng, count):
         else:
             c03_hare.record(c, c['draws'], rng.randint(0, 10 ** 6))
         c.pop('_end', None)
+        # the recorded draws must replay on the implementation that produced them (a recording that does not - the draw-to-candidate
+        # translation of a shared rank can depend on set iteration order - says nothing about the count: dropped and counted)
+        try:
+            v = common.parse_sx(hare_impl(c))
+        except Exception:   # noqa
+            v = None
+        if v is not None and v[0] == 0 and v[1][3] == c03_hare.E_ORACLE:
+            _DROPPED[0] += 1
+            continue
         yield c
 
 
